@@ -108,7 +108,9 @@ package helpers
 //@   ensures result == pt.count
 
 //@ func WgCounter.Done
-//@   props C05 C08
+//@   props C05 C08 C05@B2 C08@B2
+// B2-lite: a call that found the counter positive performs its wg.Done() whatever other finishers do in between (no lost completion)
+//@   ensures [B2] [b2-done] old(pt.count) > 0 ==> $wgdone[0] == old($wgdone[0]) + 1
 //@   requires RI_Wgc(pt)
 //@   modifies pt.count, pt.wg, $wgdone[0]
 //@   ensures [zero] old(pt.count) == 0 ==> pt.count == 0 && pt.wg == old(pt.wg)
